@@ -99,7 +99,9 @@ CHECKS["C13"] = dict(level="model_checking", design_ref="DESIGN.md 5/C13",
     technique="symbolic execution of the traced jaxpr with jnp.linalg.qr replaced by its contract (symbolic Q, upper-triangular R, A = QR) + z3 polynomial identities",
     text="For every trial kind and both walker containers: overlap(A) = overlap(Q_out) x returned norm factor, E_L(A) = E_L(Q_out), "
          "force_bias(A) = force_bias(Q_out) for ALL Q (not assumed orthonormal), all invertible upper-triangular R and all Hamiltonians, "
-         "through qr_vmap / qr_vmap_uhf and the propagators' orthonormalize_walkers / _orthogonalize_walkers. get_init_walkers is "
+         "through qr_vmap / qr_vmap_uhf and the propagators' orthonormalize_walkers / _orthogonalize_walkers; inside propagate_free "
+         "the accumulated norm is multiplied by each step's factor from an ARBITRARY symbolic pre-state (inductive over steps); the rdm1 that "
+         "get_init_walkers diagonalises equals <a+_ps a_qs> of the single-determinant trial (rhf, uhf). get_init_walkers itself is "
          "not applicable (eager NumPy/LAPACK eigenvector gauge and data-dependent Python branches) and is not claimed.",
     note=_WF_NOTE + " LAPACK's QR (orthonormality, phases) is not verified: contract stub.")
 CHECKS["C14"] = dict(level="model_checking", design_ref="DESIGN.md 5/C14",
@@ -107,7 +109,8 @@ CHECKS["C14"] = dict(level="model_checking", design_ref="DESIGN.md 5/C14",
     text="_apply_trotprop and one full propagate() step (restricted and unrestricted) give identical outputs for every n_batch dividing the "
          "walker count and are equivariant under a transposition and a 4-cycle of (walkers, fields, weights, overlaps); the "
          "population-control shift is invariant; rhf+propagator_restricted on W equals uhf+propagator_unrestricted on [W,W] (walkers, "
-         "weights, overlaps, force bias, energy) for all walkers, fields, weights. n_batch independence of the measurement routines is "
+         "weights, overlaps, force bias, energy) for all walkers, fields, weights; with two electrons per spin (norb 3) the overlap, "
+         "energy and force bias of the rhf trial on [W,W] and of the uhf trial on [W,W] equal those of the rhf trial on W. n_batch independence of the measurement routines is "
          "decided under C01-C03.",
     note=_WF_NOTE + " exp/cos/angle/log uninterpreted (the equalities hold for every interpretation). Driver-level runs outside.")
 CHECKS["C11"] = dict(level="model_checking", design_ref="DESIGN.md 5/C11",
